@@ -6,6 +6,11 @@ from mcx.ref import topo, report
 
 PID = 'C09'
 PRINT_ABS = 7.1e-7      # values between 0.1 and 1 are printed with six decimals: 5e-7 per real/imaginary part
+
+
+def pfloor(imax):
+    """absolute print-precision floor: only currents of 0.05 A and more can fall into the six-decimal range"""
+    return PRINT_ABS if imax >= 0.05 else 0.0
 CHUNK = 4
 TOLERANCE = 'sum of junction J lines <= 1e-6*k*max|J| + k*7e-7 (print precision); J vs pulse-current sum 2e-6*max|I| + 7e-7'
 RULE = ('Stars of k=2..4 (thorough: 5) spokes on a hub in EVERY orientation (2^k) and order (k!), and all directed '
@@ -104,6 +109,8 @@ def extra_cases(seed):
                        ('two-half-arcs', [h1, h2]), ('two-half-arcs-rev', [h1, h2r]), ('two-half-arcs-rev1', [h1r, h2]),
                        ('closed-arc-tail', [loop, tail]), ('arc-two-wires', [h1, tail, geom.wire([-R, 0., 0.], [-R - 0.04 * lam, 0.03 * lam, -0.02 * lam], 2, r)])):
         yield dict(extra=name, env='free', f=f, objs=objs)
+        for vs in (1e-7, 7e-6, 1e6):         # the report carries the currents of microvolt and megavolt sources just the same
+            yield dict(extra='%s x%g V' % (name, vs), env='free', f=f, objs=objs, vscale=vs)
     # exactly collinear junctions (telescoping element, different radii, equal segment vectors), every orientation, two orders
     stops = [np.array([0., y, 0.5]) for y in (-1., 0., 1., 2.)]
     for order in ((0, 1, 2), (2, 0, 1)):
@@ -119,7 +126,7 @@ def evaluate_extra(c):
     import mininec.mininec as mm
     # feed: first interior pulse of the first object
     fp = [p for p in m.pulses if p.geo[0] is p.geo[1]][0]
-    m.register_source(mm.Excitation(1 + 0.3j), fp.idx)
+    m.register_source(mm.Excitation((1 + 0.3j) * c.get('vscale', 1.0)), fp.idx)
     m.compute()
     blocks = report.parse_currents(m.currents_as_mininec())
     hc = geom.half_currents(m)
@@ -167,7 +174,7 @@ def evaluate_extra(c):
                 hv = 0j          # no pulse overlaps this end segment half at all
             expv = hv if e == 0 else -hv
             printed[j] = row[1]
-            if abs(row[1] - expv) > 2e-6 * imax + PRINT_ABS:
+            if abs(row[1] - expv) > 2e-6 * imax + pfloor(imax):
                 # the known first-end slip: the line shows exactly one of several overlapping pulses
                 indiv = []
                 for p in m.pulses:
@@ -176,7 +183,7 @@ def evaluate_extra(c):
                         if np.linalg.norm(np.array(p.point, float) - X) < tol and np.linalg.norm(v / np.linalg.norm(v) - u) < 1e-4:
                             ii = m.current[p.idx] * (1 if h == 1 else -1)
                             indiv.append(ii if e == 0 else -ii)
-                lo = len(indiv) >= 2 and any(abs(row[1] - x) <= 2e-6 * imax + PRINT_ABS for x in indiv)
+                lo = len(indiv) >= 2 and any(abs(row[1] - x) <= 2e-6 * imax + pfloor(imax) for x in indiv)
                 if lo:
                     lastonly.add(j)
                 viol.append(('J-VALUE-end%d-%s' % (e + 1, 'lastonly' if lo else 'extra'), '%s: object %d end %d prints J=%s, pulse currents on that end sum to %s (%d overlapping pulses)'
@@ -185,7 +192,7 @@ def evaluate_extra(c):
         if len(grp) > 1 and all(j in printed for j in grp):
             tot = sum(printed[j] if ends[j][1] == 1 else -printed[j] for j in grp)
             mx = max(abs(printed[j]) for j in grp)
-            if abs(tot) > 1e-6 * len(grp) * mx + len(grp) * PRINT_ABS:
+            if abs(tot) > 1e-6 * len(grp) * mx + len(grp) * pfloor(imax):
                 viol.append(('KIRCHHOFF-%s' % ('lastonly' if any(j in lastonly for j in grp) else 'extra'), '%s: printed J lines at one junction sum to %s (max %g)' % (c['extra'], tot, mx)))
     return dict(viol=viol[:6], canon='extra|' + c['extra'], nontriv=True, outcome='extra', dev=0.0)
 
@@ -204,11 +211,11 @@ def evaluate(c):
     for (a, b, n), w in zip(c['wires'], ws):
         if {a, b} == {sa, sb} and n >= 2:
             p1, p2 = pts[sa], pts[sb]
-            src = dict(at=list(p1 + (p2 - p1) / n), dir=list(p2 - p1), v=[1.0, 0.3])
+            src = dict(at=list(p1 + (p2 - p1) / n), dir=list(p2 - p1), v=[1.0 * c.get('vscale', 1.0), 0.3 * c.get('vscale', 1.0)])
     if src is None:
         for (a, b, n), w in zip(c['wires'], ws):
             if n >= 2:
-                src = dict(at=list(pts[a] + (pts[b] - pts[a]) / n), dir=list(pts[b] - pts[a]), v=[1.0, 0.3])
+                src = dict(at=list(pts[a] + (pts[b] - pts[a]) / n), dir=list(pts[b] - pts[a]), v=[1.0 * c.get('vscale', 1.0), 0.3 * c.get('vscale', 1.0)])
                 break
     if src is None:
         return dict(viol=[], skipped='no-interior-pulse', evals=0)
@@ -284,7 +291,7 @@ def evaluate(c):
                     continue
                 expv = hv if e == 0 else -hv
                 printed[key] = row[1]
-                if abs(row[1] - expv) > 2e-6 * imax + PRINT_ABS:
+                if abs(row[1] - expv) > 2e-6 * imax + pfloor(imax):
                     # characterise: does the line show exactly ONE of the >=2 overlapping pulse currents?
                     indiv = []
                     for p in m.pulses:
@@ -295,21 +302,21 @@ def evaluate(c):
                             if np.linalg.norm(np.array(p.point, float) - X) < tolp and np.linalg.norm(v / np.linalg.norm(v) - u) < 1e-4:
                                 ii = m.current[p.idx] * (1 if h == 1 else -1)
                                 indiv.append(ii if e == 0 else -ii)
-                    lastonly = len(indiv) >= 2 and any(abs(row[1] - x) <= 2e-6 * imax + PRINT_ABS for x in indiv)
+                    lastonly = len(indiv) >= 2 and any(abs(row[1] - x) <= 2e-6 * imax + pfloor(imax) for x in indiv)
                     if lastonly:
                         lastonly_ends.add(key)
                     viol.append(('J-VALUE-end%d%s' % (e + 1, '-lastonly' if lastonly else ''),
                                  'wire %d end %d prints J=%s, pulse currents on that end sum to %s (k=%d junction, %d overlapping pulses)'
                                  % (wi + 1, e + 1, row[1], expv, len(inj[key]), len(indiv))))
                 # magnitude / phase columns
-                if abs(row[2] - abs(row[1])) > 2e-6 * abs(row[1]) + 2 * PRINT_ABS:
+                if abs(row[2] - abs(row[1])) > 2e-6 * abs(row[1]) + 2 * pfloor(imax):
                     viol.append(('MAG', 'magnitude column %g vs %g' % (row[2], abs(row[1]))))
     for jn in junc:
         if not all(k in printed for k in jn):
             continue
         tot = sum(printed[k] if k[1] == 1 else -printed[k] for k in jn)
         mx = max(abs(printed[k]) for k in jn)
-        if abs(tot) > 1e-6 * len(jn) * mx + len(jn) * PRINT_ABS:
+        if abs(tot) > 1e-6 * len(jn) * mx + len(jn) * pfloor(imax):
             lo = any(k in lastonly_ends for k in jn)
             viol.append(('KIRCHHOFF-%s' % ('lastonly' if lo else 'k%d' % len(jn)),
                          'junction %s: printed J lines sum to %s (max %g)' % (jn, tot, mx)))
